@@ -13,6 +13,7 @@ import (
 	"sort"
 	"sync"
 
+	"github.com/paulmach/orb/geojson"
 	"github.com/paulmach/osm"
 	"github.com/paulmach/osm/osmgeojson"
 
@@ -35,18 +36,46 @@ func options(s int, explicitFalse bool) []osmgeojson.Option {
 	return o
 }
 
+// respelled is option set s said differently: every option that is not in s
+// is passed as false, every option of s is passed twice, and the list runs in
+// the opposite order. Each option documents one effect that does not depend
+// on the others, so this is the same configuration.
+func respelled(s int) []osmgeojson.Option {
+	var o []osmgeojson.Option
+	add := func(bit int, f func(bool) osmgeojson.Option) {
+		if s&bit != 0 {
+			o = append(o, f(true), f(true))
+		} else {
+			o = append(o, f(false))
+		}
+	}
+	add(optInvalid, osmgeojson.IncludeInvalidPolygons)
+	add(optNoRel, osmgeojson.NoRelationMembership)
+	add(optNoMeta, osmgeojson.NoMeta)
+	add(optNoID, osmgeojson.NoID)
+	return o
+}
+
 // convert runs the code under test and returns the marshalled collection.
 func convert(o *osm.OSM, s int, explicitFalse bool) (out []byte, err error) {
+	_, out, err = convertWith(o, options(s, explicitFalse))
+	return out, err
+}
+
+// convertWith also hands out the collection itself (kept by one clause while
+// later conversions run).
+func convertWith(o *osm.OSM, opts []osmgeojson.Option) (fc *geojson.FeatureCollection, out []byte, err error) {
 	defer func() {
 		if p := recover(); p != nil {
 			err = fmt.Errorf("panic: %v", p)
 		}
 	}()
-	fc, err := osmgeojson.Convert(o, options(s, explicitFalse)...)
+	fc, err = osmgeojson.Convert(o, opts...)
 	if err != nil {
-		return nil, err
+		return nil, nil, err
 	}
-	return json.Marshal(fc)
+	out, err = json.Marshal(fc)
+	return fc, out, err
 }
 
 var (
@@ -88,9 +117,13 @@ func checkCase(r *kit.Run, d *Data) {
 	okOut := [16]bool{}
 	skipped := map[string]int{}
 	stats := map[string]int{}
-	nondet := false // a determinism violation makes the differential below meaningless for this data set
+	nondet := false                      // a determinism violation makes the differential below meaningless for this data set
+	var first *geojson.FeatureCollection // the result of the first conversion, kept until all others are done
 	for s := 0; s < 16; s++ {
-		b, err := convert(o, s, false)
+		fc, b, err := convertWith(o, options(s, false))
+		if s == 0 {
+			first = fc
+		}
 		if err != nil {
 			viol(s, "convert-error", err.Error())
 			r.Case(fmt.Sprintf("%x|%d", hash, s), false)
@@ -183,6 +216,36 @@ func checkCase(r *kit.Run, d *Data) {
 		}
 	}
 
+	// the same option set spelled differently (explicit false, an option given
+	// twice, another order): one option set per data set, in rotation
+	if sv := int(hash % 16); okOut[sv] {
+		stats["respelled"]++
+		if _, b, err := convertWith(o, respelled(sv)); err != nil || string(b) != string(outs[sv]) {
+			for i := 0; i < 8 && !nondet; i++ {
+				if b2, err := convert(o, sv, false); err != nil || string(b2) != string(outs[sv]) {
+					nondet = true
+				}
+			}
+			if nondet {
+				viol(sv, "determinism/same-input", "repeated conversions of the same input differ")
+				for s := range okOut {
+					okOut[s] = false
+				}
+			} else {
+				viol(sv, "option-differential/respelled", fmt.Sprintf("options given as false / twice / in another order change the output (err=%v):\n plain     %s\n respelled %s", err, outs[sv], b))
+			}
+		}
+	}
+
+	// a result stays what it was while later conversions of the same and of an
+	// equal input run (49 of them by now)
+	if okOut[0] && first != nil {
+		stats["result-retained"]++
+		if b, err := json.Marshal(first); err != nil || string(b) != string(outs[0]) {
+			viol(0, "determinism/result-changed-by-later-conversions", fmt.Sprintf("the first result reads differently after the later conversions (err=%v):\n before %s\n after  %s", err, outs[0], b))
+		}
+	}
+
 	// option differential: S == base with exactly the documented keys removed.
 	// base is the output without options, or with IncludeInvalidPolygons alone.
 	failedSingle := map[int]bool{}
@@ -252,14 +315,19 @@ func checkCase(r *kit.Run, d *Data) {
 
 func main() {
 	kit.Main("C17", "exploration", func(r *kit.Run) {
-		r.Rule("Every data set of the finite product in gen.go (families node, unint-key, way, route, route-long, route-topology, area, other, nested, mixed; " +
-			"choices: tag class, located, role, way shape, missing-node subset, coordinate source, metadata pattern, member order and direction, relation kind, relation-in-relation membership with and without ids shared across kinds) " +
+		r.Rule("Every data set of the finite product in gen.go (families node, unint-key, way, route, route-long, route-topology, area, other, nested, mixed, meta-values, strings, degenerate, oriented, long; " +
+			"choices: tag class, located, role, way shape, missing-node subset, coordinate source, metadata pattern, member order and direction, relation kind, relation-in-relation membership with and without ids shared across kinds; " +
+			"boundary classes: every 9th data set again with ids beyond 2^40, every 8th with one of 11 id ranges (0, around 2^31 / 2^32 / 2^40, up to 2^44, beyond 2^53 and 2^62, negative, beyond 2^44 / 2^45, below 2^63; int64 extremes), " +
+			"every 6th with one of 8 coordinate maps (prime meridian, equator, all four quadrants, mirrored, +-180/+-90, 15-17 digit fractions, 1e-7); metadata at 1 / 2^31 / 2^53+1 / 2^63-1, timestamps at the epoch, before it, sub-second, in other zones, after 2262, year 9999; " +
+			"strings with blanks, non-ASCII, quotes, line breaks, 5000 characters; empty data set, ways without refs, relations without members, ways visiting a node twice, oriented route members, lists of 128-300 entries) " +
 			"is converted under all 16 option sets; one evaluation = (data set, option set). A case is non-trivial when the conversion emitted at least one feature; " +
 			"it is distinct by the hash of the data set content (not its name) plus the option set.")
 		r.Assume("Way.Polygon() decides which ways are areas (checked by C18); orb/geojson marshalling shows the feature collection faithfully; " +
 			"multipolygon geometry is C16's subject and only per-feature identity/props constraints are applied to it here.")
 		r.Assume("Not judged (counted under skipped_clauses): presence of features for ways without interesting tags, for ways consumed by an area relation, " +
-			"for relations that are neither route nor area; nodes stored at 0,0; what IncludeInvalidPolygons adds.")
+			"for relations that are neither route nor area; nodes stored at 0,0; what IncludeInvalidPolygons adds. " +
+			"Not enumerated: negative ids and ids from 2^44 that share their number across kinds (the packed feature id the membership map is keyed by collides: reported, see gen.go idShifts); " +
+			"duplicate tag keys, duplicate element ids, contradicting repeated options, member types other than node/way/relation, invisible elements, NaN coordinates, years beyond 9999 (the property text does not decide them).")
 		if r.ReplayPath != "" {
 			var c replayCase
 			r.LoadReplay(&c)
